@@ -88,6 +88,9 @@ type SessSpec struct {
 	RollbackAlso map[int]int    `json:"rollback_also,omitempty"` // vb -> a second request index that is answered ROLLBACK(R) as well
 	// HoldConsAtStart: the consumer blocks inside its very first delivery (until "releasecons"); installed before Start()
 	HoldConsAtStart bool `json:"hold_cons_at_start,omitempty"`
+	// EndBehindReq: vb -> (request index, status): right behind the node's answer to that stream request the stream is ended
+	// with that status (the end reaches the client before its open call has returned)
+	EndBehindReq map[int][2]int `json:"end_behind_req,omitempty"`
 	// StaticMember: static membership (member, total) instead of 1/1
 	StaticMember [2]int `json:"static_member,omitempty"`
 	// FailoverOnLogFetch: vb -> n: right after the node answered the failover-log request that follows the vBucket's ROLLBACK
@@ -457,7 +460,7 @@ func RunSession(spec *SessSpec) *Trace {
 		}
 	}
 	reqHoldCh := make(chan struct{})
-	if len(spec.Rollbacks) > 0 || len(spec.ReqFail) > 0 || len(spec.ReqHold) > 0 {
+	if len(spec.Rollbacks) > 0 || len(spec.ReqFail) > 0 || len(spec.ReqHold) > 0 || len(spec.EndBehindReq) > 0 {
 		var rmu sync.Mutex
 		nreq := map[int]int{}
 		rolledBack := map[int]bool{}
@@ -484,6 +487,10 @@ func RunSession(spec *SessSpec) *Trace {
 			rmu.Lock()
 			defer rmu.Unlock()
 			nreq[int(r.VB)]++
+			if eb, ok := spec.EndBehindReq[int(r.VB)]; ok && eb[0] == nreq[int(r.VB)] {
+				vbe, ste := r.VB, uint32(eb[1])
+				return &cbsim.Action{After: func() { env.Sim.EndStreams(vbe, ste) }}
+			}
 			if rf, ok := spec.ReqFail[int(r.VB)]; ok && rf[0] == nreq[int(r.VB)] {
 				return &cbsim.Action{HasStatus: true, Status: uint16(rf[1])}
 			}
